@@ -154,13 +154,27 @@ class SplitStream:
     """`s.split(sep)` / `s.splitn(n, sep)` of a symbolic string as a positional stream: segment k is the term seg(src, sep, k), it exists
     iff hasseg(src, sep, k) (monotone; segment 0 always exists).  With a limit n, element n-1 is rest(src, sep, n-1) — everything after
     the (n-1)th separator — and exists iff hasseg(src, sep, n-1)."""
-    __slots__ = ("src", "sep", "pos", "limit")
+    __slots__ = ("src", "sep", "pos", "limit", "start")
 
     def __init__(self, src, sep, pos=0, limit=None):
-        self.src, self.sep, self.pos, self.limit = src, sep, pos, limit
+        self.src, self.sep, self.pos, self.limit, self.start = src, sep, pos, limit, pos
 
     def __repr__(self):
         return "split(%s, %r)@%d" % (fmt(self.src), self.sep, self.pos)
+
+
+class ElemRef:
+    """`&mut xs[i]` of a concrete list (concrete_vec mode): reading through it gives the element, `*r = v` stores into the list."""
+    __slots__ = ("lst", "idx")
+
+    def __init__(self, lst, idx):
+        self.lst, self.idx = lst, idx
+
+    def get(self):
+        return self.lst[self.idx]
+
+    def __repr__(self):
+        return "&mut [%d]=%r" % (self.idx, self.lst[self.idx])
 
 
 class LIter(list):
@@ -212,6 +226,8 @@ def term(v):
         return ("tuple",) + tuple(term(x) for x in v)
     if isinstance(v, list):
         return ("list",) + tuple(term(x) for x in v)
+    if isinstance(v, ElemRef):
+        return term(v.get())
     if isinstance(v, CharStream):
         return ("stream", v.src, v.pos)
     if isinstance(v, SplitStream):
@@ -874,6 +890,12 @@ class Evaluator:
         raise Abort("field %s of %r" % (name, base))
 
     def assign(self, lhs, v, env, depth):
+        if self.concrete_vec and lhs.get("k") == "unary" and lhs.get("op") == "Deref":
+            inner_ = H.strip(lhs["e"])
+            if inner_.get("k") == "path" and "local" in inner_.get("res", {}) and isinstance(env.get(inner_["res"]["id"]), ElemRef):
+                r_ = env[inner_["res"]["id"]]
+                r_.lst[r_.idx] = v.get() if isinstance(v, ElemRef) else v
+                return
         if self.concrete_vec and lhs.get("k") == "unary" and lhs.get("op") == "Deref" and isinstance(v, V):
             inner = H.strip(lhs["e"])
             if inner.get("k") == "path" and "local" in inner.get("res", {}):
@@ -986,6 +1008,18 @@ class Evaluator:
         return Sym(("def", r.get("def") or "?"))
 
     def ev_addrof(self, n, env, depth):
+        if self.concrete_vec and n.get("mut"):
+            e = n["e"]
+            while isinstance(e, dict) and e.get("k") == "block" and not e.get("stmts") and e.get("expr"):
+                e = e["expr"]
+            if e.get("k") == "index":
+                b, i = self.ev(e["base"], env, depth), self.ev(e["idx"], env, depth)
+                if isinstance(b, ElemRef):
+                    b = b.get()
+                if isinstance(b, list) and isinstance(i, int) and not isinstance(i, bool):
+                    if 0 <= i < len(b):
+                        return ElemRef(b, i)
+                    raise Panic("index out of bounds: the len is %d but the index is %d" % (len(b), i))
         return self.ev(n["e"], env, depth)
 
     def ev_cast(self, n, env, depth):
@@ -998,11 +1032,18 @@ class Evaluator:
         v = self.ev(n["e"], env, depth)
         op = n.get("op")
         if op == "Deref":
-            return v
+            return v.get() if isinstance(v, ElemRef) else v
+        if isinstance(v, ElemRef):
+            v = v.get()
         if op == "Not":
             if isinstance(v, bool):
                 return not v
             if isinstance(v, int):
+                if v >= 0:
+                    # bitwise complement needs a width, which the facts do not carry on literals: the narrowest standard width holding the
+                    # operand (exact for u8 operands — byte masks — which is where this tree complements a concrete integer)
+                    w_ = 8 if v < (1 << 8) else 16 if v < (1 << 16) else 32 if v < (1 << 32) else 64
+                    return (~v) & ((1 << w_) - 1)
                 return ~v
             if isinstance(v, Sym):
                 return not self.decide_bool(v)
@@ -1019,6 +1060,8 @@ class Evaluator:
         if op == "Or":
             return self.decide_bool(self.ev(n["l"], env, depth)) or self.decide_bool(self.ev(n["r"], env, depth))
         a, b = self.ev(n["l"], env, depth), self.ev(n["r"], env, depth)
+        a = a.get() if isinstance(a, ElemRef) else a
+        b = b.get() if isinstance(b, ElemRef) else b
         if op in ("Eq", "Ne", "Lt", "Le", "Gt", "Ge"):
             return self.compare(op, a, b)
         if isinstance(a, int) and isinstance(b, int) and not isinstance(a, bool) and not isinstance(b, bool):
@@ -1448,14 +1491,23 @@ class Evaluator:
                 return r
         if getattr(self, "split_streams", False) and isinstance(a0, Sym) and "str" in base:
             sep_ = lambda x: chr(int(x)) if isinstance(x, Ch) else (x if isinstance(x, str) and not isinstance(x, Sym) else None)  # noqa: E731
+
+            def base_(t_, sp_):
+                # splitting "everything after the k-th separator" of s at the same separator continues the segments of s from k
+                if isinstance(t_, tuple) and t_[:1] == ("rest",) and t_[2] == ("lit", sp_):
+                    return t_[1], t_[3]
+                return t_, 0
             if name == "split" and len(args) == 2 and sep_(args[1]) is not None:
-                return SplitStream(a0.t, sep_(args[1]))
+                src_, k0_ = base_(a0.t, sep_(args[1]))
+                return SplitStream(src_, sep_(args[1]), k0_)
             if name == "splitn" and len(args) == 3 and isinstance(args[1], int) and not isinstance(args[1], bool) and sep_(args[2]) is not None and args[1] >= 1:
-                return SplitStream(a0.t, sep_(args[2]), 0, args[1])
+                src_, k0_ = base_(a0.t, sep_(args[2]))
+                return SplitStream(src_, sep_(args[2]), k0_, k0_ + args[1])
             if name == "split_once" and len(args) == 2 and sep_(args[1]) is not None:
-                st_ = SplitStream(a0.t, sep_(args[1]), 0, 2)
-                if self.split_has(st_, 1):
-                    return V("Some", ((self.split_elem(st_, 0), self.split_elem(st_, 1)),))
+                src_, k0_ = base_(a0.t, sep_(args[1]))
+                st_ = SplitStream(src_, sep_(args[1]), k0_, k0_ + 2)
+                if self.split_has(st_, k0_ + 1):
+                    return V("Some", ((self.split_elem(st_, k0_), self.split_elem(st_, k0_ + 1)),))
                 return V("None")
         if isinstance(a0, SplitStream):
             st_ = a0
@@ -2037,6 +2089,8 @@ class Evaluator:
             return True
         if st.limit is not None and k >= st.limit:
             return False
+        if isinstance(getattr(st, "start", None), int) and k == st.start:
+            return True          # the first element of any split always exists (the whole remainder)
         if k > getattr(self, "max_stream_len", 8):
             raise Abort("split stream bound")
         for (a, c) in list(self.path.val.items()):
